@@ -131,3 +131,7 @@ DET.update({
  "C15-f": (False, "OPEN (missed by C15 quick): frames of a multi-frame message assembled privately; a read deadline on a later frame leaves the stream looking clean and export is allowed", "needs fault action ReadTimeout mid-message before Export in StreamEndpoint"),
  "C19-f": (False, "OPEN (missed by C19 quick): cancellation ignored once SetTimeout(>0) was called", "needs configuration variant SetTimeout(>0) in the Cancel shapes"),
 })
+DET.update({
+ "C02-f": (False, "OPEN (missed by C02 quick): sender frame-counter guard dead, counter wraps after 2^32 frames and first-lap frames replay", "needs counter fast-forward via imported crypto state near 2^32-1 before the replay adversary"),
+ "C12-f": (False, "OPEN (missed by C12 quick; suite confirmation timed out under load): encrypt counter rolled back after a failed write", "needs a write-fault action in SecureChannel"),
+})
